@@ -394,6 +394,7 @@ func (w *world) oracle(dropped uint64, haveDropped bool) {
 	sort.Slice(w.ops, func(i, j int) bool { return w.ops[i].Inv < w.ops[j].Inv })
 	// per-emitter order of export
 	last := map[int]int{}
+	lastRec := map[int]*recInfo{}
 	for _, e := range w.exports {
 		for _, id := range e.ids {
 			ri := w.recs[id]
@@ -402,10 +403,20 @@ func (w *world) oracle(dropped uint64, haveDropped bool) {
 			}
 			prev, ok := last[ri.emitter]
 			if ok && ri.seq < prev {
-				r.Violate(prop, "out-of-order", "out-of-order", "emitter e%d: record seq %d exported after seq %d", ri.emitter, ri.seq, prev)
+				// context for the signature: was a Shutdown in progress between the emission of the
+				// overtaken record and this export? (Shutdown empties the queue and hands the records
+				// to the export buffer in two steps, outside the queue lock)
+				ctx := "plain"
+				for _, op := range w.ops {
+					if op.Kind == "shutdown" && op.Inv < e.beg && (op.Ret == 0 || op.Ret > ri.emitInv) {
+						ctx = "shutdown-in-progress"
+					}
+				}
+				r.Violate(prop, "out-of-order", "out-of-order/"+ctx, "emitter e%d: record seq %d (emitted %d..%d) exported at %d after seq %d (emitted %d..%d)", ri.emitter, ri.seq, ri.emitInv, ri.emitRet, e.beg, prev, lastRec[ri.emitter].emitInv, lastRec[ri.emitter].emitRet)
 			}
 			if !ok || ri.seq > prev {
 				last[ri.emitter] = ri.seq
+				lastRec[ri.emitter] = ri
 			}
 		}
 	}
